@@ -613,6 +613,10 @@ def sc_fc_radius(V, P, cfg):
                              "symbolic radius not within 1e-10 h above a multiple of the element size h")
     else:
         r = V.const(cfg["radius"])
+    if cfg.get("prior_radius") is not None:
+        # process history: another filter on a mesh of the same size, with another radius, was built and used before
+        m0 = pym.FilterConv(pym.Signal("x0", x), domain=_domain(V, cfg), radius=V.const(cfg["prior_radius"]), relative_units=rel, **kw)
+        m0.response()
     if rel and cfg.get("default_units"):
         m = pym.FilterConv(sig, domain=dom, radius=r, **kw)
     elif cfg.get("radius_first") is not None:
@@ -671,6 +675,10 @@ def sc_df(V, P, cfg):
     kw = {}
     if nonpad is not None:
         kw["nonpadding"] = np.array(nonpad, dtype=int)
+    if cfg.get("prior_radius") is not None:
+        # process history: another filter on a mesh of the same size, with another radius, was built and used before
+        m0 = pym.DensityFilter(pym.Signal("x0", x), domain=_domain(V, cfg), radius=V.const(cfg["prior_radius"]), **kw)
+        m0.response()
     m = pym.DensityFilter(sig, domain=dom, radius=r, **kw)
     m.response()
     y = m.sig_out[0].state
@@ -854,6 +862,9 @@ def items(tier):
                 add("fc-radius", "%s-r%s-%s" % (_tag(mesh), rad, _btag(bcs, dim)), mesh=mesh, radius=rad, bcs=bcs,
                     default_units=(t == 0))
                 if t == 1 and ri == 0:
+                    add("fc-radius", "%s-r1.8-after-another-filter-r1.2-%s" % (_tag(mesh), _btag(bcs, dim)), mesh=mesh, radius="1.8",
+                        prior_radius="1.2", bcs=bcs)
+                if t == 1 and ri == 0:
                     # set_filter_radius() on an existing filter: same kernel size (1.8 after 1.5: both 3 wide) ...
                     add("fc-radius", "%s-r1.8-after-r1.5-%s" % (_tag(mesh), _btag(bcs, dim)), mesh=mesh, radius="1.8",
                         radius_first="1.5", bcs=bcs)
@@ -886,6 +897,9 @@ def items(tier):
             add("df", "%s-r%s" % (_tag(mesh), rad), mesh=mesh, radius=rad)
         top = "3.6" if q else str(Fraction(max(mesh)) + Fraction("1.2"))
         add("df", "%s-symr" % _tag(mesh), mesh=mesh, symradius=["0.3", top])
+        if max(mesh) >= 2:
+            add("df", "%s-r1.8-after-r1.2" % _tag(mesh), mesh=mesh, radius="1.8", prior_radius="1.2")
+            add("df", "%s-r2.5-after-r1.5" % _tag(mesh), mesh=mesh, radius="2.5", prior_radius="1.5")
     for mesh, nonpad in [((3, 2, 0), [0, 1]), ((3, 2, 0), [2, 3, 5]), ((2, 2, 0), [])] + ([] if q else [((2, 2, 2), [0, 7]), ((4, 3, 0), [5, 6])]):
         for rad in ("1.5", "2.5"):
             add("df", "%s-r%s-nonpad%s" % (_tag(mesh), rad, "".join(map(str, nonpad))), mesh=mesh, radius=rad, nonpadding=nonpad)
